@@ -16,6 +16,7 @@ PROP = {'title': 'Grid positions, offsets and ranges form an exact row-major bij
                'sources': ['harness/C08.cpp', 'harness/C08_pos.cpp', 'harness/C08_grid.cpp', 'harness/C08_ops.cpp', 'harness/C08_scale.cpp', 'harness/C08_hist.cpp', 'harness/C08_cat.cpp'],
                'libs': [],
                'flavour': 'asan'}],
+ 'compile_probes': [{'name': 'narrow_size_types', 'source': 'harness/C08_probe_narrow.cpp'}],
  'deadline': {'quick': 240, 'thorough': 1200},
  'rule': 'nested loops over explicit domains (bounds of the quick tier; thorough: extents 0..6, min/sup 0..7): all sizes with extents '
          '0..4 for N = 1,2,3 (155 sizes); offset for every in-range position; '
